@@ -115,6 +115,8 @@ type c13Plan struct {
 	root  bool
 	three bool // three events per version (hook gate before the publishing point)
 	gate  string
+	// reopen > 0: version `reopen` arrives as didClose + didOpen instead of didChange
+	reopen int
 }
 
 func c13Plans(tier string) []c13Plan {
@@ -142,6 +144,20 @@ func c13Plans(tier string) []c13Plan {
 		if tier == "thorough" {
 			for i := range schedulesOf(4, true) {
 				ps = append(ps, c13Plan{n: 4, sched: i, root: root, three: true})
+			}
+		}
+	}
+	// close + reopen in place of a change: all two- and three-event schedules for 2 and 3 versions
+	for _, root := range []bool{false, true} {
+		for n := 2; n <= 3; n++ {
+			for at := 1; at < n; at++ {
+				for i := range schedules(n) {
+					ps = append(ps, c13Plan{n: n, sched: i, root: root, reopen: at})
+				}
+				for i := range schedulesOf(n, true) {
+					ps = append(ps, c13Plan{n: n, sched: i, root: root, three: true, gate: "diag.loaded", reopen: at})
+					ps = append(ps, c13Plan{n: n, sched: i, root: root, three: true, gate: "diag.enter", reopen: at})
+				}
 			}
 		}
 	}
@@ -179,7 +195,7 @@ func init() {
 	Register(&Prop{
 		ID:          "C13",
 		Race:        true,
-		Rule:        "bursts of 2-5 versions (didOpen + didChange) of one document, each out of balance by a distinct amount so that a payload identifies its version; the stub client parks every PublishDiagnostics call and the controller realises a schedule = linear extension of {change_i < change_i+1, change_i < deliver_i}, waiting for goroutine-state quiescence between steps. All 3/15/105 schedules for 2/3/4 versions are enumerated (945 for 5 in the thorough tier, sampled in quick), with and without workspace root; two-document bursts interleave two schedules (sampled). Oracle: at final quiescence the last delivered diagnostics per document equal those a fresh server publishes for the final text. Three-event schedules additionally hold every analysis at the diag.loaded hook (before the publishing point): all 10/280 for 2/3 versions, 4 versions sampled (quick) or all 15400 (thorough). Non-trivial = a schedule that asks for a delivery order different from the change order, or any three-event schedule (whether the implementation lets it happen is counted separately: out_of_order_deliveries_realised, infeasible_release_steps); distinct by schedule string.",
+		Rule:        "bursts of 2-5 versions (didOpen + didChange) of one document, each out of balance by a distinct amount so that a payload identifies its version; the stub client parks every PublishDiagnostics call and the controller realises a schedule = linear extension of {change_i < change_i+1, change_i < deliver_i}, waiting for goroutine-state quiescence between steps. All 3/15/105 schedules for 2/3/4 versions are enumerated (945 for 5 in the thorough tier, sampled in quick), with and without workspace root; two-document bursts interleave two schedules (sampled). Oracle: at final quiescence the last delivered diagnostics per document equal those a fresh server publishes for the final text. The same schedules with one version arriving as didClose+didOpen instead of didChange (2 and 3 versions, every position). Three-event schedules additionally hold every analysis at the diag.loaded hook (before the publishing point): all 10/280 for 2/3 versions, 4 versions sampled (quick) or all 15400 (thorough). Non-trivial = a schedule that asks for a delivery order different from the change order, or any three-event schedule (whether the implementation lets it happen is counted separately: out_of_order_deliveries_realised, infeasible_release_steps); distinct by schedule string.",
 		Notes:       []string{"gates exist only at the client boundary (PublishDiagnostics); a release step whose call never arrives (suppressed by the implementation) is recorded as infeasible, not as an error", "runs under the race detector (by-catch)"},
 		Cases:       func(tier string) int64 { return int64(len(c13Plans(tier))) },
 		Exhaustive:  func(tier string) bool { return true },
@@ -289,9 +305,13 @@ func runC13(c *Ctx, idx int64) {
 		if !g.st.Deliver {
 			doc, ver := g.doc, g.st.I
 			blocked, bdump, done := s.Do(func() {
-				if ver == 0 {
+				switch {
+				case ver == 0:
 					s.Open(uris[doc], c13Text(doc, 0))
-				} else {
+				case ver == pl.reopen:
+					s.Close(uris[doc])
+					s.Open(uris[doc], c13Text(doc, ver))
+				default:
 					s.ChangeFull(uris[doc], c13Text(doc, ver))
 				}
 			})
@@ -344,6 +364,10 @@ func runC13(c *Ctx, idx int64) {
 	if pl.three {
 		c.Count("three_event_schedules_run", 1)
 	}
+	if pl.reopen > 0 {
+		c.Count("schedules_with_close_and_reopen", 1)
+		trace = append(trace, fmt.Sprintf("(version %d arrives as didClose+didOpen)", pl.reopen))
+	}
 	c.Count("infeasible_release_steps", int64(infeasible))
 	if outOfOrder {
 		c.Count("out_of_order_deliveries_realised", 1)
@@ -363,7 +387,7 @@ func runC13(c *Ctx, idx int64) {
 		c.Count("reordering_schedules_attempted", 1)
 	}
 	if reorders || pl.three {
-		c.Nontrivial(HashStr(fmt.Sprint(pl.root, pl.gate, pl.three) + strings.Join(trace, " ")))
+		c.Nontrivial(HashStr(fmt.Sprint(pl.root, pl.gate, pl.three, pl.reopen) + strings.Join(trace, " ")))
 	}
 	if dump != "" {
 		c.Violate(Violation{Kind: "deadlock", Sig: "C13:deadlock", Pool: "n/a", Detail: "server goroutines remain blocked after every parked call was released", Witness: map[string]any{"schedule": trace, "dump": trimStack(dump)}})
